@@ -13,6 +13,9 @@ package main
 //            at every position of an unsolicited batch), both engines (the experimental engine over successive connections)
 //   cp-overshoot  a headers message that runs 1..k headers PAST the expected checkpoint (a conformant reply never does), then
 //            the rest of the sender's chain, which contradicts the NEXT checkpoint (or honestly matches it)
+//   exp-interleaved  2-3 experimental-engine peers connected AT THE SAME TIME (own checkpoint tracker each, shared store), batches
+//            interleaved by the script: peer A passes checkpoint k, then peer B delivers a header contradicting k (stale, or with
+//            0..2 children, reorg-winning or not), or a forbidden one, or is an honest lagging peer (also announcing a new block)
 //   random   seeded mixtures of the above ingredients
 
 import (
@@ -311,6 +314,90 @@ func runC07(c *Ctx) error {
 							}
 						}
 					}
+				}
+			}
+		}
+	}
+
+	// ---- exp-interleaved: simultaneously connected experimental peers, interleaved deliveries ----
+	for a := 0; a <= 2; a++ { // prefix length = position of the contradicting header in B's batch
+		k := a + 1 // checkpoint height
+		for children := 0; children <= 2; children++ {
+			for _, heavy := range []bool{false, true} {
+				for _, aAhead := range []int{0, 2} { // how far A runs beyond the checkpoint before B delivers
+					gl := 4
+					u := &History{}
+					prev := genesisID
+					if a > 0 {
+						u.Subs = append(u.Subs, linearSubs(2, genesisID, a, bitsW2, tsOld)...)
+						prev = a + 1
+					}
+					u.Subs = append(u.Subs, linearSubs(100, prev, gl+1, bitsW2, tsOld)...)
+					bits := bitsW2
+					if heavy {
+						bits = bitsW8
+					}
+					u.Subs = append(u.Subs, linearSubs(200, prev, 1+children, bits, tsOld)...)
+					pre, good, bad := seqInts(2, a), seqInts(100, gl), seqInts(200, 1+children)
+					cpsV := [][]cpSpec{{{k, good[0]}}, {{k, good[0]}, {k + 2, good[2]}}}
+					for ci, cps := range cpsV {
+						nA := &nodeSpec{P: 1, Cap: 2000, Chain: catInts(pre, good), Reserve: []int{100 + gl}}
+						nB := &nodeSpec{P: 2, Cap: 2000, Chain: catInts(pre, bad)}
+						nC := &nodeSpec{P: 3, Cap: 2000, Chain: catInts(pre, good), Reserve: []int{100 + gl}}
+						lead := []string{"C1", "C2", "D1"}
+						for d := 0; d < aAhead; d++ {
+							lead = append(lead, "D1")
+						}
+						// B after A passed the checkpoint
+						sc := &Scenario{Eng: "x", Cps: cps, U: u, Nodes: []*nodeSpec{nA, nB}, Cmds: append(append([]string{}, lead...), "D2", "R20")}
+						if err := g.do(sc, "exp-interleaved"); err != nil {
+							return err
+						}
+						// control: B first (the contradicting header arrives before anybody delivered the matching one)
+						sc = &Scenario{Eng: "x", Cps: cps, U: u, Nodes: []*nodeSpec{nA, nB}, Cmds: []string{"C1", "C2", "D2", "D1", "R20"}}
+						if err := g.do(sc, "exp-interleaved"); err != nil {
+							return err
+						}
+						if ci == 0 {
+							// the contradicting header alone first (stale), its children in a later message
+							nB2 := &nodeSpec{P: 2, Cap: 2000, Chain: catInts(pre, bad[:1]), Reserve: bad[1:]}
+							cm := append(append([]string{}, lead...), "D2", "R10")
+							if children > 0 {
+								cm = append(cm, fmt.Sprintf("A2.%d.h", children), "R10")
+							}
+							sc = &Scenario{Eng: "x", Cps: cps, U: u, Nodes: []*nodeSpec{nA, nB2}, Cmds: cm}
+							if err := g.do(sc, "exp-interleaved"); err != nil {
+								return err
+							}
+							// three peers: honest A, fork B, honest lagging C (C also announces a new block at the end)
+							sc = &Scenario{Eng: "x", Cps: cps, U: u, Nodes: []*nodeSpec{nA, nB, nC},
+								Cmds: append(append([]string{"C1", "C2", "C3"}, lead[2:]...), "D3", "D2", "R20", "A3.1.h", "R10", "A1.1.h", "R10")}
+							if err := g.do(sc, "exp-interleaved"); err != nil {
+								return err
+							}
+							// forbidden instead of contradicting: the first header of B's branch is on the forbidden list
+							uf := &History{Subs: u.Subs, Forbidden: []int{bad[0]}}
+							sc = &Scenario{Eng: "x", Cps: cps, U: uf, Nodes: []*nodeSpec{nA, nB}, Cmds: append(append([]string{}, lead...), "D2", "R20")}
+							if err := g.do(sc, "exp-interleaved"); err != nil {
+								return err
+							}
+						}
+					}
+				}
+			}
+		}
+	}
+	// honest peers only: a second honest peer after the first passed the checkpoint; caps so that the two alternate
+	for _, caps := range [][2]int{{2000, 2000}, {1, 2000}, {2, 1}, {1, 1}} {
+		u := &History{Subs: linearSubs(2, genesisID, 6, bitsW2, tsOld)}
+		for _, cps := range [][]cpSpec{{{2, 3}}, {{2, 3}, {4, 5}}, nil} {
+			n1 := &nodeSpec{P: 1, Cap: caps[0], Chain: seqInts(2, 5), Reserve: []int{7}}
+			n2 := &nodeSpec{P: 2, Cap: caps[1], Chain: seqInts(2, 5), Reserve: []int{7}}
+			for _, cmds := range [][]string{{"C1", "C2", "D1", "D2", "D1", "D2", "R30", "A2.1.h", "R10", "A1.1.h", "R10"},
+				{"C1", "C2", "R30", "A2.1.h", "R10"}, {"C1", "D1", "C2", "D2", "D1", "R30", "A1.1.h", "A2.1.h", "R10"}} {
+				sc := &Scenario{Eng: "x", Cps: cps, U: u, Nodes: []*nodeSpec{n1, n2}, Cmds: cmds}
+				if err := g.do(sc, "exp-interleaved-honest"); err != nil {
+					return err
 				}
 			}
 		}
